@@ -291,10 +291,15 @@ func (ni *nodeInst) exec(o string) string {
 		for _, m := range ni.s.Members() {
 			before[m.Name] = m.Status
 		}
+		t0 := time.Now()
 		ev.NotifyLeave(mlNode(n))
-		// the stamp handleNodeLeave took is replaced by the explicit one (only when it took one)
+		t1 := time.Now()
+		// The stamp handleNodeLeave took (time.Now()) is replaced by the explicit one — only when the code
+		// really took a stamp during this call: a leaveTime it kept from earlier stays what it was.
 		if st, ok := before[n]; ok && (st == serf.StatusAlive || st == serf.StatusLeaving) {
-			ni.s.VerifSetLeaveTime(n, at(t))
+			if lt, ok := ni.s.VerifLeaveTime(n); ok && !lt.Before(t0) && !lt.After(t1) {
+				ni.s.VerifSetLeaveTime(n, at(t))
+			}
 		}
 	case f[0] == "nu" && len(f) == 2:
 		n, ok := parseHexName(f[1])
@@ -556,9 +561,13 @@ func (ni *nodeInst) exec(o string) string {
 				stamps = true
 			}
 		}
+		t0 := time.Now()
 		_ = ni.s.Leave()
+		t1 := time.Now()
 		if was == serf.SerfAlive && stamps {
-			ni.s.VerifSetLeaveTime(nodeSelf, at(t))
+			if lt, ok := ni.s.VerifLeaveTime(nodeSelf); ok && !lt.Before(t0) && !lt.After(t1) {
+				ni.s.VerifSetLeaveTime(nodeSelf, at(t))
+			}
 		}
 	case f[0] == "sd" && len(f) == 1:
 		ev0 := ni.drainEvents() // nothing can be pending, but keep the barrier before the pipeline goes away
